@@ -25,6 +25,7 @@ import json
 import os
 import random
 import shutil
+import threading
 import time
 
 import cfggen
@@ -76,6 +77,49 @@ def cert_name(c):
     return "bb%d" % c
 
 
+def seeded_delays(ca, seed, bound):
+    """Every answer of the CA is delayed by a seeded random 0..bound ms."""
+    r = random.Random(seed)
+    orig = ca.send
+
+    def send(rq, ans, rec, method, _orig=orig, _r=r, _bound=bound):
+        if _bound:
+            time.sleep(_r.random() * _bound / 1000.0)
+        return _orig(rq, ans, rec, method)
+    ca.send = send
+
+
+class Meeting:
+    """CAs of one daemon that hold their answer to a newAccount request until each of the CAs in `want` has received
+    one (since `begin`), at most `cap` seconds: registrations on several endpoints that CAN overlap DO overlap, a client
+    that registers on one endpoint after the other is delayed by `cap` per endpoint and no more."""
+
+    def __init__(self, cas, cap=1.0):
+        self.cond, self.cap, self.want, self.seen = threading.Condition(), cap, None, set()
+        for name, ca in cas.items():
+            ca.send = self.wrap(name, ca.send)
+
+    def wrap(self, name, orig):
+        def send(rq, ans, rec, method):
+            want = self.want
+            if want is not None and name in want and rec.get("rk") == "newAccount":
+                with self.cond:
+                    self.seen.add(name)
+                    self.cond.notify_all()
+                    self.cond.wait_for(lambda: self.want is None or self.want <= self.seen, timeout=self.cap)
+            return orig(rq, ans, rec, method)
+        return send
+
+    def begin(self, want):
+        with self.cond:
+            self.want, self.seen = set(want), set()
+
+    def end(self):
+        with self.cond:
+            self.want = None
+            self.cond.notify_all()
+
+
 def run_history(sc, root, helper):
     """Returns {"sc", "starts": [{"index", "rc", "done", "posts", "ca_logs", "kid_keys", "stderr_tail"}]}."""
     d = os.path.join(root, "bb%d" % sc["idx"])
@@ -84,14 +128,7 @@ def run_history(sc, root, helper):
     cas = []
     for j in range(sc["nep"]):
         ca = mockca.MockCA(helper, opts={"polls_before_valid": sc["polls"][j]})
-        r = random.Random(sc["idx"] * 100 + j)
-        orig, bound = ca.send, sc["delay"][j]
-
-        def send(rq, ans, rec, method, _orig=orig, _r=r, _bound=bound):
-            if _bound:
-                time.sleep(_r.random() * _bound / 1000.0)
-            return _orig(rq, ans, rec, method)
-        ca.send = send
+        seeded_delays(ca, sc["idx"] * 100 + j, sc["delay"][j])
         ca.start()
         cas.append(ca)
     out = {"sc": sc, "starts": []}
